@@ -80,7 +80,7 @@ def sink_discipline(ctx):
     for t in texts:
         n = g.node_of_stmt.get(t)
         guards = [(unparse(x.ast), lab) for x, lab in dom.guards_of(g, n) if x.kind == 'test'] if n else []
-        res.check(guards in ([('self.value_ is not None', 'T')], [('self._value is not None', 'T')]), 'R-SINK', ce.fq,
+        res.check(guards in ([('self.value_ is None', 'F')], [('self._value is None', 'F')]), 'R-SINK', ce.fq,
                   "text is set exactly when a value is present", fail_detail=str(guards), key='R-SINK|text-guard')
     # write adds one constant declaration (C17 checks the details)
 
